@@ -630,9 +630,9 @@ Qed.
 
 (* ---- the window: concrete witnesses ---- *)
 
-Definition wt : target := mkT [s "m"] true.                      (* one declared output and an output_dir *)
+Definition wt : target := mkT [s "a"] true.                      (* one declared output and an output_dir *)
 Definition wcur : rec := mkRec 1 2 3 4 5.
-Definition wb : build := mkB [s "a.txt"] (fun n => if str_eqb n (s "m") then 7 else 8)%N wcur false.
+Definition wb : build := mkB [s "b"] (fun n => if str_eqb n (s "a") then 7 else 8)%N wcur false.
 Definition wdone : st := full wt wb empty_st.                     (* a completed build *)
 
 (* `plz build --rebuild` killed after os.Create(metadata): the next build fails *)
